@@ -15,30 +15,30 @@ Local Open Scope Z_scope.
    declared type, nat >= 0, ticket amounts > 0) and every key, the total ticket amount grows by at
    most what TICKET created during the run; well-formedness (in particular: no zero-amount ticket
    anywhere in the stack) is preserved *)
-Theorem C20_mass_only_grows_by_TICKET : forall p st st',
-  ok_stack (stk st) = true -> run p st = Ok st' ->
+Theorem C20_mass_only_grows_by_TICKET : forall f p st st',
+  ok_stack (stk st) = true -> run f p st = Ok st' ->
   ok_stack (stk st') = true /\
   forall k, stack_mass k (stk st') - stack_mass k (stk st) <= ledger_sum k (minted st') - ledger_sum k (minted st).
 Proof. exact conservation. Qed.
 Print Assumptions C20_mass_only_grows_by_TICKET.
 
 (* the ledger is touched by TICKET only: a program without TICKET leaves it unchanged ... *)
-Theorem C20_ledger_changes_only_by_TICKET : forall p st st',
-  prog_has_ticket p = false -> run p st = Ok st' -> minted st' = minted st.
-Proof. intros p st st' H. apply (run_keeps_ledger p H). Qed.
+Theorem C20_ledger_changes_only_by_TICKET : forall f p st st',
+  prog_has_ticket p = false -> run f p st = Ok st' -> minted st' = minted st.
+Proof. intros f p st st' H. apply (run_keeps_ledger f p H). Qed.
 Print Assumptions C20_ledger_changes_only_by_TICKET.
 
 (* ... hence split / join / dup / pair / option / list shuffling can never increase any ticket total:
    tickets are neither forged nor duplicated *)
-Theorem C20_no_growth_without_TICKET : forall p st st',
-  ok_stack (stk st) = true -> prog_has_ticket p = false -> run p st = Ok st' ->
+Theorem C20_no_growth_without_TICKET : forall f p st st',
+  ok_stack (stk st) = true -> prog_has_ticket p = false -> run f p st = Ok st' ->
   forall k, stack_mass k (stk st') <= stack_mass k (stk st).
 Proof. exact no_ticket_no_growth. Qed.
 Print Assumptions C20_no_growth_without_TICKET.
 
 (* from the empty stack: every ticket present at the end has a positive amount and is covered by the ledger *)
-Theorem C20_from_empty_stack : forall p a st',
-  run p (init a) = Ok st' ->
+Theorem C20_from_empty_stack : forall f p a st',
+  run f p (init a) = Ok st' ->
   stack_pos (stk st') = true /\ forall k, stack_mass k (stk st') <= ledger_sum k (minted st').
 Proof. exact from_empty. Qed.
 Print Assumptions C20_from_empty_stack.
@@ -50,9 +50,9 @@ Proof. exact tickets_pos_spec. Qed.
 Print Assumptions C20_no_zero_ticket.
 
 (* TICKET: None for amount 0, otherwise a ticket of exactly that amount issued by SELF (and recorded) *)
-Theorem C20_ticket_spec : forall st item amount s c,
+Theorem C20_ticket_spec : forall f st item amount s c,
   stk st = item :: VNat amount :: s -> content_of item = Some c ->
-  step TICKET st =
+  step (S f) TICKET st =
   Ok (if amount >? 0
       then {| self := self st; stk := VSome (VTicket (self st) c amount) :: s; minted := ((self st, c), amount) :: minted st |}
       else with_stk st (VNone (TTicket (cty_of c)) :: s)).
@@ -60,31 +60,31 @@ Proof. exact ticket_spec. Qed.
 Print Assumptions C20_ticket_spec.
 
 (* SPLIT_TICKET: None iff a part is 0 or the parts do not sum to the amount; otherwise the two parts *)
-Theorem C20_split_spec : forall st tk c a l r s,
+Theorem C20_split_spec : forall f st tk c a l r s,
   stk st = VTicket tk c a :: VPair (VNat l) (VNat r) :: s ->
   (l = 0 \/ r = 0 \/ l + r <> a ->
-     step SPLIT_TICKET st = Ok (with_stk st (VNone (TPair (TTicket (cty_of c)) (TTicket (cty_of c))) :: s))) /\
+     step (S f) SPLIT_TICKET st = Ok (with_stk st (VNone (TPair (TTicket (cty_of c)) (TTicket (cty_of c))) :: s))) /\
   (l <> 0 -> r <> 0 -> l + r = a ->
-     step SPLIT_TICKET st = Ok (with_stk st (VSome (VPair (VTicket tk c l) (VTicket tk c r)) :: s))).
+     step (S f) SPLIT_TICKET st = Ok (with_stk st (VSome (VPair (VTicket tk c l) (VTicket tk c r)) :: s))).
 Proof. exact split_spec. Qed.
 Print Assumptions C20_split_spec.
 
 (* JOIN_TICKETS: Some (amounts added) iff same ticketer and same contents, None otherwise *)
-Theorem C20_join_spec : forall st t1 c1 a1 t2 c2 a2 s,
+Theorem C20_join_spec : forall f st t1 c1 a1 t2 c2 a2 s,
   stk st = VPair (VTicket t1 c1 a1) (VTicket t2 c2 a2) :: s -> cty_of c1 = cty_of c2 ->
-  (t1 = t2 /\ c1 = c2 -> step JOIN_TICKETS st = Ok (with_stk st (VSome (VTicket t1 c1 (a1 + a2)) :: s))) /\
-  (~ (t1 = t2 /\ c1 = c2) -> step JOIN_TICKETS st = Ok (with_stk st (VNone (TTicket (cty_of c1)) :: s))).
+  (t1 = t2 /\ c1 = c2 -> step (S f) JOIN_TICKETS st = Ok (with_stk st (VSome (VTicket t1 c1 (a1 + a2)) :: s))) /\
+  (~ (t1 = t2 /\ c1 = c2) -> step (S f) JOIN_TICKETS st = Ok (with_stk st (VNone (TTicket (cty_of c1)) :: s))).
 Proof. exact join_spec. Qed.
 Print Assumptions C20_join_spec.
 
 (* DUP and DUP n refuse every value that contains a ticket (at any depth) *)
-Theorem C20_dup_rejects_tickets : forall st x s,
-  stk st = x :: s -> wt x = true -> has_ticket x = true -> step DUP st = Reject.
+Theorem C20_dup_rejects_tickets : forall f st x s,
+  stk st = x :: s -> wt x = true -> has_ticket x = true -> step (S f) DUP st = Reject.
 Proof. exact dup_rejects_tickets. Qed.
 Print Assumptions C20_dup_rejects_tickets.
 
-Theorem C20_dupn_rejects_tickets : forall st n x,
-  nth_error (stk st) n = Some x -> wt x = true -> has_ticket x = true -> step (DUPN (S n)) st = Reject.
+Theorem C20_dupn_rejects_tickets : forall f st n x,
+  nth_error (stk st) n = Some x -> wt x = true -> has_ticket x = true -> step (S f) (DUPN (S n)) st = Reject.
 Proof. exact dupn_rejects_tickets. Qed.
 Print Assumptions C20_dupn_rejects_tickets.
 
@@ -99,32 +99,41 @@ Example C20_example_dup : exec_from [x41] [PUSH_NAT 3; PUSH_STR [x61]; TICKET; D
 Proof. vm_compute. reflexivity. Qed.
 
 (* a successful SPLIT_TICKET / JOIN_TICKETS redistributes the amount exactly (nothing created, nothing lost) *)
-Theorem C20_split_conserves_exactly : forall st tk c a l r s k,
+Theorem C20_split_conserves_exactly : forall f st tk c a l r s k,
   stk st = VTicket tk c a :: VPair (VNat l) (VNat r) :: s -> l <> 0 -> r <> 0 -> l + r = a ->
-  exists st', step SPLIT_TICKET st = Ok st' /\ stack_mass k (stk st') = stack_mass k (stk st) /\ minted st' = minted st.
+  exists st', step (S f) SPLIT_TICKET st = Ok st' /\ stack_mass k (stk st') = stack_mass k (stk st) /\ minted st' = minted st.
 Proof. exact split_conserves_exactly. Qed.
 Print Assumptions C20_split_conserves_exactly.
 
-Theorem C20_join_conserves_exactly : forall st t c a1 a2 s k,
+Theorem C20_join_conserves_exactly : forall f st t c a1 a2 s k,
   stk st = VPair (VTicket t c a1) (VTicket t c a2) :: s ->
-  exists st', step JOIN_TICKETS st = Ok st' /\ stack_mass k (stk st') = stack_mass k (stk st) /\ minted st' = minted st.
+  exists st', step (S f) JOIN_TICKETS st = Ok st' /\ stack_mass k (stk st') = stack_mass k (stk st) /\ minted st' = minted st.
 Proof. exact join_conserves_exactly. Qed.
 Print Assumptions C20_join_conserves_exactly.
 
 (* maps and big_maps (finite maps with nat keys) holding tickets are part of the instruction set covered by
    C20_mass_only_grows_by_TICKET (EMPTY_MAP / EMPTY_BIG_MAP, UPDATE, GET_AND_UPDATE, MEM, GET, ITER over maps).
    GET and DUP / DUP n on a map whose value type contains a ticket are refused (what defect #50 violated) ... *)
-Theorem C20_map_of_tickets_get_dup_rejected : forall st k big vt m s, ty_has_ticket vt = true ->
-  (stk st = VNat k :: VMap big vt m :: s -> step GET st = Reject) /\
-  (stk st = VMap big vt m :: s -> step DUP st = Reject) /\
-  (forall n, nth_error (stk st) n = Some (VMap big vt m) -> step (DUPN (S n)) st = Reject).
+Theorem C20_map_of_tickets_get_dup_rejected : forall f st k big vt m s, ty_has_ticket vt = true ->
+  (stk st = VNat k :: VMap big vt m :: s -> step (S f) GET st = Reject) /\
+  (stk st = VMap big vt m :: s -> step (S f) DUP st = Reject) /\
+  (forall n, nth_error (stk st) n = Some (VMap big vt m) -> step (S f) (DUPN (S n)) st = Reject).
 Proof. exact map_of_tickets_get_dup_rejected. Qed.
 Print Assumptions C20_map_of_tickets_get_dup_rejected.
 
 (* ... and GET_AND_UPDATE k None moves the value out: a second one on the same key finds nothing *)
-Theorem C20_get_and_update_moves : forall st k t big vt m s,
+Theorem C20_get_and_update_moves : forall f st k t big vt m s,
   stk st = VNat k :: VNone t :: VMap big vt m :: s ->
-  step GET_AND_UPDATE st = Ok (with_stk st (opt_of vt (map_get k m) :: VMap big vt (map_remove k m) :: s)) /\
+  step (S f) GET_AND_UPDATE st = Ok (with_stk st (opt_of vt (map_get k m) :: VMap big vt (map_remove k m) :: s)) /\
   map_get k (map_remove k m) = None.
 Proof. exact get_and_update_moves. Qed.
 Print Assumptions C20_get_and_update_moves.
+
+(* closures (LAMBDA / APPLY / EXEC) are part of the covered instruction set; closures are duplicable and count
+   for no ticket mass, because a closure that captured a value whose type contains a ticket can never be run:
+   EXEC re-pushes the captured values and PUSH refuses non-pushable types (what seed C20-5 broke) *)
+Theorem C20_closure_with_ticket_never_runs : forall f st x a r caps body s c,
+  stk st = x :: VLam a r caps body :: s -> In c caps -> ty_has_ticket (type_of c) = true ->
+  step (S f) EXEC st = Reject.
+Proof. exact closure_with_ticket_never_runs. Qed.
+Print Assumptions C20_closure_with_ticket_never_runs.
